@@ -166,6 +166,23 @@ pub fn fragment(d: &Dgram, orig: usize, id: u16, pieces: &[(usize, usize)]) -> V
         p.id = id;
         p.frag_off = a;
         p.mf = b != total;
+        // IPv4 header options (NOP padding closed by End-of-List) on some fragments: the header of
+        // a received fragment need not be 20 octets. Pattern taken from the identification that
+        // was drawn anyway, so saved tapes keep their draws: 1 in 4 datagrams; all fragments /
+        // the last one only / the first one only / 8 octets on every other piece.
+        if (id >> 3) & 3 == 0 {
+            let last = b == total;
+            let first = a == 0;
+            let with = match (id >> 5) & 3 {
+                0 => true,
+                1 => last,
+                2 => first,
+                _ => (a / 8) % 2 == 0,
+            };
+            if with {
+                p.options = if (id >> 7) & 1 == 0 { vec![1, 1, 1, 0] } else { vec![1, 1, 1, 1, 1, 1, 1, 0] };
+            }
+        }
         out.push(Pkt::from_ip4(&p, orig));
     }
     out
